@@ -251,6 +251,8 @@ pub struct SimReport {
 }
 
 struct Inner {
+    /// Linux thread ids of the simulated threads (0 = not attached yet), for the watchdog
+    os_tid: Vec<i64>,
     status: Vec<St>,
     current: Option<usize>,
     step: u64,
@@ -393,6 +395,22 @@ fn fallback(el: &[usize], cur: Option<usize>) -> usize {
     }
 }
 
+extern "C" {
+    fn syscall(num: i64, ...) -> i64;
+}
+
+/// Is the OS thread sleeping in the kernel (futex wait etc.)? Read from /proc; `None` if unknown.
+fn os_thread_sleeping(os_tid: i64) -> Option<bool> {
+    if os_tid <= 0 {
+        return None;
+    }
+    let stat = std::fs::read_to_string(format!("/proc/self/task/{os_tid}/stat")).ok()?;
+    // the state is the first field after the parenthesised command name
+    let rest = &stat[stat.rfind(')')? + 1..];
+    let state = rest.trim_start().chars().next()?;
+    Some(state == 'S')
+}
+
 static SEEN_BLOCKING: std::sync::atomic::AtomicBool = std::sync::atomic::AtomicBool::new(false);
 
 pub enum Done {
@@ -412,6 +430,7 @@ impl Sim {
         Arc::new(Sim {
             alloc_every,
             inner: Mutex::new(Inner {
+                os_tid: vec![0; n],
                 status: vec![St::Ready; n],
                 current: None,
                 step: 0,
@@ -444,6 +463,7 @@ impl Sim {
         ALLOC_CTR.with(|c| c.set(0));
         ALLOC_EVERY.with(|c| c.set(self.alloc_every));
         let mut g = lock(&self.inner);
+        g.os_tid[tid] = unsafe { syscall(186 /* SYS_gettid on x86_64 */) };
         while g.current != Some(tid) {
             g = self.cvs[tid].wait(g).unwrap_or_else(|e| e.into_inner());
         }
@@ -592,13 +612,14 @@ impl Sim {
         let mut last_step = g.step;
         let mut last_fin = g.status.iter().filter(|s| **s == St::Finished).count();
         let mut last_change = Instant::now();
+        let mut asleep_looks = 0u32;
         loop {
             if g.all_done {
                 return Done::Finished;
             }
             let (ng, _) = self
                 .done_cv
-                .wait_timeout(g, Duration::from_millis(50))
+                .wait_timeout(g, Duration::from_millis(8))
                 .unwrap_or_else(|e| e.into_inner());
             g = ng;
             if g.all_done {
@@ -616,12 +637,29 @@ impl Sim {
                 g.rep.hung = true;
                 return Done::Hung;
             }
-            // once real blocking has been seen in this process, stop waiting long for it
-            let stall_now = if SEEN_BLOCKING.load(std::sync::atomic::Ordering::Relaxed) {
+            // The baton holder made no scheduling point for a while. If its OS thread is asleep in the
+            // kernel (three looks in a row, >= 20 ms without progress) it is blocked on something
+            // the simulator does not know about - a real lock held by a parked thread - and waiting
+            // longer is pointless. Otherwise (it computes, or /proc is unavailable) fall back to the
+            // plain timeout, which is shortened once real blocking has been seen in this process.
+            let mut stall_now = if SEEN_BLOCKING.load(std::sync::atomic::Ordering::Relaxed) {
                 stall_ms.min(120)
             } else {
                 stall_ms
             };
+            if idle >= 20 {
+                if let Some(c) = g.current {
+                    match os_thread_sleeping(g.os_tid[c]) {
+                        Some(true) => asleep_looks += 1,
+                        _ => asleep_looks = 0,
+                    }
+                    if asleep_looks >= 3 {
+                        stall_now = 0;
+                    }
+                }
+            } else {
+                asleep_looks = 0;
+            }
             if idle >= stall_now {
                 if let Some(c) = g.current {
                     let other = (0..g.status.len()).find(|t| *t != c && g.status[*t] == St::Ready);
@@ -633,6 +671,7 @@ impl Sim {
                         g.digest.byte(0xFB);
                         self.cvs[o].notify_one();
                         last_change = Instant::now();
+                        asleep_looks = 0;
                     }
                 }
             }
